@@ -9,9 +9,9 @@ for d in seeded/*/; do
   [ -n "$1" ] && [[ "$n" != $1* ]] && continue
   demo=$(ls $d | grep -E "^demo" | head -1)
   PATCH=$d/patch.diff; [ -f $d/patch.rebased.diff ] && PATCH=$d/patch.rebased.diff
-  (cd "$W/repo" && git checkout -q -- . && git clean -fdq)
-  (cd "$W/repo" && timeout 120 /venv/bin/python "$OLDPWD/$d/$demo" >/dev/null 2>&1); a=$?
+  (cd "$W/repo" && git reset -q --hard && git clean -fdq)
+  (cd "$W/repo" && PYTHONPATH="$W/repo" timeout 120 /venv/bin/python "$OLDPWD/$d/$demo" >/dev/null 2>&1); a=$?
   (cd "$W/repo" && (git apply "$OLDPWD/$PATCH" 2>/dev/null || git apply --3way "$OLDPWD/$PATCH" >/dev/null 2>&1)); ap=$?
-  (cd "$W/repo" && timeout 120 /venv/bin/python "$OLDPWD/$d/$demo" >/dev/null 2>&1); b=$?
+  (cd "$W/repo" && PYTHONPATH="$W/repo" timeout 120 /venv/bin/python "$OLDPWD/$d/$demo" >/dev/null 2>&1); b=$?
   echo "$n apply=$ap demo_without=$a demo_with=$b"
 done
